@@ -416,3 +416,20 @@ void _ZNKSt7__cxx1119basic_ostringstreamIcSt11char_traitsIcESaIcEE3strEv(void *r
   r->buf[n] = 0;
   r->len = n;
 }
+
+/* out-of-line instances of the std::ofstream / std::ifstream members that are usually header-inlined (the compiler
+ * keeps them out of line when they are called more than once): same behaviour as the libstdc++ inline code */
+void _ZNSt14basic_ofstreamIcSt11char_traitsIcEE5closeEv(void *o) {
+  if (!_ZNSt13basic_filebufIcSt11char_traitsIcEE5closeEv((uint8_t *)o + 8)) vs_ios(o)->state |= VS_FAIL;
+}
+void _ZNSt14basic_ifstreamIcSt11char_traitsIcEE5closeEv(void *o) {
+  if (!_ZNSt13basic_filebufIcSt11char_traitsIcEE5closeEv((uint8_t *)o + 16)) vs_ios(o)->state |= VS_FAIL;
+}
+void _ZNSt14basic_ofstreamIcSt11char_traitsIcEE4openEPKcSt13_Ios_Openmode(void *o, void *name, uint32_t mode) {
+  if (!_ZNSt13basic_filebufIcSt11char_traitsIcEE4openEPKcSt13_Ios_Openmode((uint8_t *)o + 8, name, mode | 16)) vs_ios(o)->state |= VS_FAIL;
+  else vs_ios(o)->state = 0;
+}
+void _ZNSt14basic_ifstreamIcSt11char_traitsIcEE4openEPKcSt13_Ios_Openmode(void *o, void *name, uint32_t mode) {
+  if (!_ZNSt13basic_filebufIcSt11char_traitsIcEE4openEPKcSt13_Ios_Openmode((uint8_t *)o + 16, name, mode | 8)) vs_ios(o)->state |= VS_FAIL;
+  else vs_ios(o)->state = 0;
+}
